@@ -75,6 +75,7 @@ def run(facts, rep):
     d8_tree_window(facts, rep)
     d9_reference_window(facts, rep)
     d10_token_ownership(facts, rep)
+    d11_local_ownership(facts, rep)
     idiom(facts, rep)
 
 
@@ -545,3 +546,68 @@ def d10_token_ownership(facts, rep):
                'input_buffer::array[] entries with is_valid set (items that arrived out of turn) are dropped with the array when the pipeline '
                'was cancelled before their turn: the boxed items are never destroyed')
     rep.floor('D10', 6, 'pipeline token ownership')
+
+
+def d11_local_ownership(facts, rep):
+    """'All objects the library created for the cancelled work are destroyed exactly once.'  Task objects normally own themselves
+    (finalize() deletes `this` on execute and on cancel).  An object that a function creates with new_object and destroys itself
+    with delete_object is owned by that function: every call between the two that can leave by an exception - in particular the
+    blocking wait, which rethrows the group's exception - must run under a guard / try_call handler that destroys the object.
+    Enumerated over every function of the analysed units that both creates and deletes small objects."""
+    from rules.common import MayThrow
+    mt = MayThrow(facts, external_may_throw=False)
+    n = 0
+    seen = set()
+    for fn in facts.fns.values():
+        if not fn.q.startswith('tbb::detail::'):
+            continue
+        news = calls_named(fn, ('new_object',))
+        dels = calls_named(fn, ('delete_object',))
+        if not news or not dels or (fn.p, fn.l0) in seen:
+            continue
+        defs = Defs(fn)
+        for npos, ns, nnode, nd in news:
+            # the variable bound to the new object: `auto& x = *alloc.new_object<T>(...)` / `T* x = alloc.new_object<T>(...)`
+            owner = None
+            for (vid, dn), val in defs.value_of.items():
+                if val is not None and ns in fn.subtree(val):
+                    owner = vid
+            if owner is None:
+                continue
+            mine = [c for c in dels if any(fn.nodes[x].get('k') == 'var' and fn.nodes[x].get('v') == owner
+                                           for a in c[2].get('a', []) for x in fn.subtree(a))]
+            if not mine:
+                continue
+            seen.add((fn.p, fn.l0))
+            n += 1
+            # may-throw calls after the creation that are not under a handler which deletes the object
+            guarded_bodies = set()
+            for pos, kind, bodies, handlers, node in try_call_sites(facts, fn):
+                if any(calls_named(h, ('delete_object',)) for h in handlers):
+                    for bfn in bodies:
+                        guarded_bodies.add(bfn.u)
+            guards = [c for c in calls_named(fn, ('make_raii_guard',))
+                      if any(calls_named(g, ('delete_object',)) for a in c[2].get('a', []) for g in lambdas_in(facts, fn, a))]
+            reached, ex, par = fn.walk(npos)
+            bad = []
+            for q in reached:
+                if q == npos:
+                    continue
+                e = fn.elems(q[0])[q[1]]
+                if not isinstance(e, int) or fn.nodes[e].get('k') != 'call':
+                    continue
+                cd = fn.callee(e) or {}
+                throws = cd.get('n') in ('execute_and_wait', 'wait', 'run_and_wait') or mt.node(fn, e)
+                if not throws or cd.get('n') in ('new_object', 'delete_object'):
+                    continue
+                if any(every_path_passes(fn, 'entry', lambda p, el, g=g: p == g[0], end=q)[0] for g in guards):
+                    continue
+                bad.append('%s at line %s' % (cd.get('n'), fn.nodes[e].get('ln')))
+            tname = (nd.get('q') or '').split('new_object<', 1)[-1].split('<', 1)[0].split('::')[-1]
+            rep.ob('D11', 'K9', fn, 'the %s created and deleted by %s is also destroyed when a call in between throws'
+                   % (tname or 'object', fn.p.split('::')[-2] + '::' + fn.p.split('::')[-1]), not bad, 'calls that can leave by an exception while the function still owns the object: %s - the object (and what '
+                   'it holds: a copy of the user\'s Body) is never destroyed' % ', '.join(sorted(set(bad))[:4]), ln=nnode['ln'],
+                   key_extra='local-own|%s' % fn.p)
+    if n < 1:
+        raise AnalysisBroken('no function with locally owned small objects found (start_scan::run)')
+    rep.floor('D11', 1, 'locally owned small objects')
